@@ -304,8 +304,15 @@ class P:
                 return "the loaded cache contains templates that are not in the file: %s" % sorted(extra)[:3]
         if kind == "cachebytes":
             return None
+        # (the digest lists the entries shard by shard; a document that carries one key in two shards has two entries that tie under the
+        # digest's own sort: the ORDER of a listing is not an observable, so both listings are sorted here)
+        def canon(o):
+            if o.startswith("T:") and " | " in o:
+                t, rest = o.split(" | ", 1)
+                return "T:" + ",".join(sorted(x for x in t[2:].split(",") if x)) + " | " + rest
+            return o
         i2 = re.sub(r" n=\d+$", "", impl)
-        if i2 != model:
+        if canon(i2) != canon(model):
             return "model/implementation disagreement: impl %r model %r" % (i2[:300], model[:300])
         return None
 
